@@ -124,3 +124,22 @@ CLAIMS["C16"] = ("other",
     "cross-representation numerical identities on correlated 2-3 mode states for every subset. F29, F30, F31 found and repaired.",
     "thewalrus.quantum functions are recording stubs; numerical agreement of float pipelines is bounded only; sorted() library contract",
     "deductive VCs over symbolic-size arrays + recording stubs for callee preconditions + bounded numeric stand-in", "DESIGN.md 5/C16")
+CLAIMS["C09"] = ("other",
+    "Proved for all parameter values and both dagger flags (6 gate classes, normal and failing backend): Gate.apply leaves the "
+    "operation's parameter list and its elements identical on normal AND exceptional exit, hands p[0] negated iff daggered, skips "
+    "the backend iff p[0] == 0, passes modes in register order; merge and optimize_circuit never modify their inputs (C03 "
+    "contracts), Gate.decompose flips only fresh products (C02 contracts). Bounded stand-in for the whole-history clauses: three "
+    "ways of sequencing two programs (incl. a measured parameter crossing the boundary), reset = fresh engine, re-run, "
+    "run/compile/optimize leave the user's Program untouched, on gaussian/fock/bosonic. F10 and F12 found and repaired; F9 "
+    "(bosonic backend re-initialises per program) is an open finding.",
+    "backend API = recording stub in the proofs; equality of final quantum states across call patterns is bounded only",
+    "deductive VCs for frame conditions + bounded stand-in for call-history equivalence", "DESIGN.md 5/C09")
+CLAIMS["C10"] = ("other",
+    "Proved: a measured parameter is evaluated at APPLICATION time from the RegRef's current value (latest outcome, no caching), "
+    "raises ParameterError before the measurement, par_evaluate/par_regref_deps semantics on real sympy expressions, unbound free "
+    "parameters raise; all fixed-size decompositions are parametric (the C02 contracts run the real _decompose on opaque values). "
+    "Bounded stand-in: symbolic vs substituted circuits agree through compile/decompose/optimize on three backends, most recent "
+    "outcome around a re-measurement, unbound parameters raise. F12 repaired; F11 (sympy symbol identity across programs) is an "
+    "open finding.",
+    "sympy is executed for real (lambdify contract trusted); array-valued/TF parameters not covered",
+    "deductive VCs + concrete sympy executions + bounded stand-in", "DESIGN.md 5/C10")
